@@ -24,4 +24,8 @@ def build(repo, tier, seed):
                          "(interface laws for Pipeline, PipelineStep, PartialApplication); Apply gives e >> p = p(o)(e(o)); one-level structural cases of __add__",
                          "bounded only (labelled): associativity over all bracketings, identity, iteration order, recursion of __add__ over nested pipelines, the ~60 helper constructors of labrea.functions "
                          "(operators are plain Python there)"]
+    from . import definition_time
+    pl_syn, pl_und = definition_time.plumbing(repo)
+    b["syntactic"] += pl_syn
+    b["undecided"] += pl_und
     return b
